@@ -216,6 +216,24 @@ pub fn run_case(seed: u64, idx: u64, out: &mut String) {
         }
     }
     final_phase(fin, &mut r, &mut ex, &mut fut, &mut closed, &mut || tx.close_channel());
+    // every stream has ended (the bound replier's too) and the router is quiet: a replier that
+    // registers now must become the bound one, not be refused
+    let ended = w.lock().unwrap_or_else(|p| p.into_inner()).end_streams;
+    if fin == "quiesce" && ended && !closed && !ex.done {
+        let label = next_label;
+        let rs = Arc::new(Mutex::new(ReplierState { outstanding: vec![] }));
+        let before = ex.wake_count();
+        if tx.try_send(new_server(&w, label, rs.clone())).is_ok() {
+            servers.insert(label, rs);
+            ex.log(format!("q server {} {}", label, (ex.wake_count() > before) as u8));
+            ex.log(format!("late {}", label));
+            let mut rounds = 0;
+            while ex.flagged() && !ex.done && rounds < 1000 {
+                ex.poll(&mut fut);
+                rounds += 1;
+            }
+        }
+    }
     drop(fut);
     let mut wl = w.lock().unwrap_or_else(|p| p.into_inner());
     wl.log.push("end".into());
@@ -265,7 +283,7 @@ pub fn replay_case(block: &[&str], out: &mut String) {
                 let s = if t[1] == "k" { Src::Sink(id) } else { Src::Stream(id) };
                 fire(&mut ex, s);
             }
-            "drain" => {
+            "drain" | "late" => {
                 let mut wl = w.lock().unwrap_or_else(|p| p.into_inner());
                 wl.log.push(l.to_string());
             }
